@@ -20,7 +20,7 @@ LEAN_MODULES = ["NiftyVerif.Core.Proto", "NiftyVerif.Model.RVec", "NiftyVerif.Mo
 DRIVER = "Driver/C17.lean"
 OBLIGATIONS = ["NiftyVerif.C17." + t for t in (
     "ncg_never_uphill", "static_ncg_never_uphill", "static_ncg_eq_eager", "line_search_accepts_first",
-    "negcurv_progress", "trust_never_uphill", "static_stack_eq_eager_stack", "old_rule_accepts_uphill", "zero_energy_args_differ")]
+    "negcurv_progress", "trust_never_uphill", "static_stack_eq_eager_stack", "old_rule_accepts_uphill", "zero_energy_args_differ", "static_stack_eq_eager_stack_default")]
 RULE = ("objective family (quartic double well with couplings, Rosenbrock-like, convex, cubic-perturbed; trigonometric in the "
         "oracle-only stream) x dimension x pytree shape x start (positive / zero / negative curvature along the gradient) x "
         "iteration limits, absdelta, xtol; non-trivial = at least one Newton iteration with a non-zero gradient; distinct by "
